@@ -55,13 +55,14 @@ type progress struct {
 
 func TestC15(t *testing.T) {
 	r := ev.Start("C15", "exploration")
-	r.Rule("bounded-exhaustive: every canonical sequence (keys first appear in order 0,1,2) of exactly L ops over {Set k (unique value), Get k, Delete k, advance clock by expiry/2+1ns, Close} with k in {0,1,2}, for capacities 1-3 x {lru,lfu,slru,tinylfu} x expiry on/off x synchronous/asynchronous callbacks, each compared after every op with a reference model (lru, slru exact; lfu exact up to ties; tinylfu generic invariants); plus seeded random sequences of length 20*cap for capacities on both sides of the internal thresholds; plus real-goroutine rounds (8 workers, every key set once with a unique value, then read and deleted by anybody) with a conservation oracle: each entry is removed by exactly one successful Delete or reported by exactly one callback with its own value, Get returns the key's own value or a miss, Len <= capacity, no panic. A case is distinct+non-trivial when its (variant, sequence) caused at least one eviction or expiry callback before Close.")
+	r.Rule("bounded-exhaustive: every canonical sequence (keys first appear in order 0,1,2) of exactly L ops over {Set k (unique value), Get k, Delete k, advance clock by expiry/2+1ns, Close} with k in {0,1,2}, for capacities 1-3 x {lru,lfu,slru,tinylfu} x expiry on/off x synchronous/asynchronous callbacks (and shorter sequences on nearly empty caches of capacity 99/100/101/250), each compared after every op with a reference model (lru, slru exact; lfu exact up to ties; tinylfu generic invariants); plus seeded random sequences of length 20*cap for capacities on both sides of the internal thresholds; plus real-goroutine rounds (8 workers, every key set once with a unique value, then read and deleted by anybody) with a conservation oracle: each entry is removed by exactly one successful Delete or reported by exactly one callback with its own value, Get returns the key's own value or a miss, Len <= capacity, no panic. A case is distinct+non-trivial when its (variant, sequence) caused at least one eviction or expiry callback before Close.")
 	r.Assume("reference models written from the textbook definitions (SLRU with the code's documented 80/20 split)",
 		"asynchronous variants run inside testing/synctest bubbles; synctest.Wait() is the quiescence point at which callbacks are compared",
 		"a sequence that makes no progress for 120 s of wall clock is reported as a hang (single-goroutine work that normally takes microseconds)")
 
 	L := ev.Pick(5, 7)
 	LAsync := ev.Pick(4, 6)
+	LLarge := ev.Pick(3, 5) // nearly empty caches of capacity 99..250
 	nRandom := ev.Pick(12, 400) // per capacity, per policy
 
 	var variants []variant
@@ -71,6 +72,17 @@ func TestC15(t *testing.T) {
 				for _, sy := range []bool{true, false} {
 					variants = append(variants, variant{pol, cp, exp, sy})
 				}
+			}
+		}
+	}
+
+	// capacities at which the admission window / protected segment exist, with shorter sequences: nearly empty large
+	// caches (one Set then Close, everything deleted again, ...)
+	nSmall := len(variants)
+	for _, pol := range []string{"lru", "lfu", "slru", "tinylfu"} {
+		for _, cp := range []int{99, 100, 101, 250} {
+			for _, sy := range []bool{true, false} {
+				variants = append(variants, variant{pol, cp, false, sy})
 			}
 		}
 	}
@@ -118,6 +130,9 @@ func TestC15(t *testing.T) {
 			n := L
 			if !v.Sync {
 				n = LAsync
+			}
+			if vi >= nSmall {
+				n = LLarge
 			}
 			body := func() {
 				enumerate(n, v.Expiry, 3, func(ops []op) {
